@@ -37,8 +37,8 @@ var solvers = []solverCfg{
 	}},
 }
 
-func runSolver(sc solverCfg, file string, timeoutS int) (status string, out string, ms int64) {
-	ctx, cancel := context.WithTimeout(context.Background(), time.Duration(timeoutS+2)*time.Second)
+func runSolver(parent context.Context, sc solverCfg, file string, timeoutS int) (status string, out string, ms int64) {
+	ctx, cancel := context.WithTimeout(parent, time.Duration(timeoutS+2)*time.Second)
 	defer cancel()
 	argv := sc.argv(file, timeoutS)
 	start := time.Now()
@@ -65,6 +65,11 @@ func (vc *VC) smtText(o *Obl, cover bool) string {
 	b.WriteString(smtPrelude)
 	eng := vc.eng
 	b.WriteString(eng.bitsDecls(vc.bitsExact))
+	for _, a := range vc.axioms {
+		if t, ok := optionalAxioms[a]; ok {
+			b.WriteString(t + "\n")
+		}
+	}
 	// spec functions: all prepared ones (declarations are cheap; axioms only for used ones)
 	used := map[string]bool{}
 	var mark func(n string)
@@ -168,10 +173,12 @@ func solveOne(o *Obl, file string, cover bool, opts solveOpts) *Result {
 	quantified := strings.Contains(readFile(file), "forall")
 	race := func(scs []solverCfg, timeoutS int) (r, bool) {
 		ch := make(chan r, len(scs))
+		ctx, cancel := context.WithCancel(context.Background())
+		defer cancel() // kills the losers
 		for _, sc := range scs {
 			sc := sc
 			go func() {
-				s, o2, m := runSolver(sc, file, timeoutS)
+				s, o2, m := runSolver(ctx, sc, file, timeoutS)
 				ch <- r{s, o2, sc.name, m}
 			}()
 		}
@@ -199,8 +206,14 @@ func solveOne(o *Obl, file string, cover bool, opts solveOpts) *Result {
 		}
 		return &Result{Obl: o, Status: "sat", Backend: b.name + "(" + b.st + ")", Ms: b.ms, File: file}
 	}
-	// stage 1: z3 5.1 with default and with pure E-matching configuration
-	b1, ok := race([]solverCfg{solvers[0], solvers[3]}, opts.quickS)
+	// stage 0: z3 5.1 with the pure E-matching configuration (answers quickly either way)
+	b0, ok := race([]solverCfg{solvers[3]}, 2)
+	if ok {
+		return &Result{Obl: o, Status: b0.st, Backend: b0.name, Ms: b0.ms, File: file}
+	}
+	// stage 1: the default configurations of all back ends
+	b1, ok := race([]solverCfg{solvers[0], solvers[2], solvers[1]}, opts.quickS)
+	b1.ms += b0.ms
 	if ok {
 		return &Result{Obl: o, Status: b1.st, Backend: b1.name, Ms: b1.ms, File: file}
 	}
@@ -215,7 +228,7 @@ func solveOne(o *Obl, file string, cover bool, opts solveOpts) *Result {
 		return &Result{Obl: o, Status: "sat", Backend: b1.name + "(unknown-accepted)", Ms: b1.ms, File: file}
 	}
 	// stage 2: the other back ends, longer limit
-	b2, ok := race([]solverCfg{solvers[1], solvers[2], solvers[0]}, opts.fullS)
+	b2, ok := race([]solverCfg{solvers[1], solvers[2], solvers[0], solvers[3]}, opts.fullS)
 	if ok {
 		return &Result{Obl: o, Status: b2.st, Backend: b2.name, Ms: b2.ms + b1.ms, File: file}
 	}
